@@ -37,7 +37,7 @@ RULE = (
 CLASSES = [
     "crash_before_open", "crash_after_truncate", "crash_mid_write", "crash_before_rename", "crash_after_rename",
     "torn_prefix", "multi_chunk", "buffered_flush_between_files", "cache_grow", "cache_shrink", "threads_off",
-    "reader_between_open_and_rename", "jobdoc", "projdoc", "cache",
+    "reader_between_open_and_rename", "jobdoc", "projdoc", "cache", "migration",
 ]
 ASSUMPTIONS = [
     "process death is modelled by os._exit before a Python-level fs call; no power loss, no un-fsynced rename reordering",
@@ -59,9 +59,13 @@ vals = st.sampled_from([0, 1.5, "v", None, [1, 2], {"y": 2}, BIG])
 
 @st.composite
 def cases(draw):
-    target = draw(st.sampled_from(["jobdoc", "jobdoc", "projdoc", "cache"]))
+    target = draw(st.sampled_from(["jobdoc", "jobdoc", "projdoc", "cache", "migration"]))
     c = {"target": target, "threads": draw(st.sampled_from([True, True, False])), "torn": draw(st.lists(st.integers(2, 40), max_size=3)),
          "reader": draw(st.sampled_from(["raw", "api", "raw"])), "with_reader": draw(st.integers(0, 2)) == 0}
+    if target == "migration":
+        c["old"] = draw(docs)
+        c["name"] = draw(st.sampled_from(["proj", "my project", "a,b"]))
+        return c
     if target == "cache":
         c["old_jobs"] = draw(st.integers(0, 3))
         c["cache_exists"] = draw(st.booleans())
@@ -86,6 +90,18 @@ def build_template(ctx, case):
     import signac
 
     root = ctx.tmpdir("c10t")
+    if case["target"] == "migration":
+        # a schema-version-1 project: signac.rc with a project name (-> written into the project document)
+        from signac._vendor import configobj
+
+        cfg = configobj.ConfigObj(os.path.join(root, "signac.rc"))
+        cfg["project"] = case.get("name", "proj")
+        cfg["schema_version"] = "1"
+        cfg.write()
+        os.makedirs(os.path.join(root, "workspace"))
+        if case.get("old") is not None:
+            fsutil.write_file(os.path.join(root, PDOC_FILE), json.dumps(case["old"]).encode())
+        return root, []
     project = signac.init_project(root)
     ids = []
     njobs = 3 if case["target"] != "cache" else case.get("old_jobs", 0)
@@ -119,6 +135,24 @@ def make_writer(case, root, ids):
     import signac
 
     threads = case.get("threads", True)
+
+    if case["target"] == "migration":
+        def prepare_m():
+            if not threads:
+                signac.JSONDict.disable_multithreading()
+            return None
+
+        def act_m(_):
+            import contextlib
+            import io
+
+            from signac.migration import apply_migrations
+
+            with contextlib.redirect_stderr(io.StringIO()):
+                apply_migrations(root)
+            return None
+
+        return prepare_m, act_m
 
     def prepare():
         if not threads:
@@ -167,6 +201,8 @@ def make_writer(case, root, ids):
 def target_files(case, root, ids):
     if case["target"] == "cache":
         return [os.path.join(root, CACHE_FILE)]
+    if case["target"] == "migration":
+        return [os.path.join(root, PDOC_FILE)]
     fs = [os.path.join(root, "workspace", ids[0], DOC_FILE) if case["target"] == "jobdoc" else os.path.join(root, PDOC_FILE)]
     if case.get("route") == "buffered":
         fs += [os.path.join(root, "workspace", ids[i], DOC_FILE) for i in (1, 2)]
@@ -231,6 +267,8 @@ def check_after(case, root, ids, old, new, snap_before, where, mms):
             mms.append(Mismatch("torn_or_unparseable", f"{where}: {rel} does not parse: {cur[1]}"))
         elif not (same_content(cur, old[f]) or same_content(cur, new[f])):
             mms.append(Mismatch("neither_old_nor_new", f"{where}: {rel} holds {str(cur)[:120]}, old={str(old[f])[:80]} new={str(new[f])[:80]}"))
+    if case["target"] == "migration":
+        return  # the migration as a whole is a multi-step move; only the document write is in C10's scope
     after = fsutil.snapshot(root)
     d = fsutil.diff(snap_before, after)
     trel = {os.path.relpath(f, root) for f in files}
@@ -315,7 +353,7 @@ def run_case(case, ctx):
         check_after(case, root, ids, oldr, newr, snap_before, f"crash before step {k} ({trace[k][1]}{'' if torn is None else f', {torn} bytes torn'})", mms)
         shutil.rmtree(root, ignore_errors=True)
     # ---- reader placements -----------------------------------------------------
-    if case.get("with_reader") and not ctx.out_of_time():
+    if case.get("with_reader") and case["target"] != "migration" and not ctx.out_of_time():
         n_sched, n_between = reader_schedules(case, ctx, template, ids, old, new, mms)
         evaluations += n_sched
         counts["reader_schedules"] = n_sched
@@ -413,6 +451,8 @@ def reader_schedules(case, ctx, template, ids, old, new, mms):
 
 
 CONSTRUCTED = [
+    {"target": "migration", "threads": True, "torn": [4], "reader": "raw", "with_reader": False, "old": {"x": 1, "l": [1, 2]}, "name": "my project"},
+    {"target": "migration", "threads": False, "torn": [9], "reader": "raw", "with_reader": False, "old": None, "name": "proj"},
     {"target": "jobdoc", "threads": True, "torn": [5], "reader": "raw", "with_reader": True, "old": {"x": 1, "l": [1, 2]}, "route": "setitem", "k": "new", "v": "v", "m": {"x": 0}},
     {"target": "jobdoc", "threads": False, "torn": [7], "reader": "api", "with_reader": True, "old": {"big": BIG, "l": [0]}, "route": "reset", "k": "x", "v": 0, "m": {"x": 1.5}},
     {"target": "projdoc", "threads": False, "torn": [], "reader": "raw", "with_reader": False, "old": None, "route": "update", "k": "x", "v": 0, "m": {"y": BIG}},
